@@ -60,7 +60,9 @@ EDITS = ['add_attr', 'add_edge', 'add_node', 'remove_triple', 'set_top', 'swap_t
 
 
 def plan(rng, idx, tier):
-    spec = rng.weighted([(gmodels.AMR, 5), (gmodels.custom(idx), 3), (gmodels.DEFAULT, 1)])
+    spec = rng.weighted([(gmodels.AMR, 5), (gmodels.custom(idx), 3), (gmodels.DEFAULT, 1),
+                         # a model with its own concept role: graphs, layout and transformations keep ':instance'
+                         (gmodels.OWN_CONCEPT_ROLE, 1)])
     ccfg = gcontent.ContentCfg(max_nodes=rng.weighted([(1, 3), (2, 3), (3, 3), (4, 3), (5, 3), (8, 1), (12, 1)]),
                                max_attrs=rng.weighted([(2, 6), (4, 1)]), reifiable=rng.pick([0.2, 0.5, 0.8]),
                                reified_nodes=rng.pick([0.0, 0.4, 0.9]), p_none_target=0.02,
